@@ -7,8 +7,10 @@ package main
 // points are the synchronisation operations (go, channel send / receive / close, select, Mutex / RWMutex /
 // WaitGroup operations, atomic read-modify-write, goroutine exit, verif.Quiesce): code between two of them runs
 // atomically, which is sound for data-race-free executions (data races themselves are not detected).
-// At a scheduling point the running goroutine may be preempted in favour of any other enabled goroutine (at most
-// maxPre times per path); when it blocks or ends, the next goroutine is a free choice among the enabled ones.
+// Delay-bounded scheduling (Emmi, Qadeer, Rakamaric 2011): the default scheduler is deterministic - the running
+// goroutine continues while it can, and when it blocks or ends the next enabled goroutine in round-robin order
+// runs; at every scheduling point the scheduler may instead skip ahead to the k-th next enabled goroutine, which
+// costs k delays, and a path may spend at most maxPre delays. Every schedule within the delay bound is a path.
 // An uncaught panic in any goroutine, and a state in which the main goroutine is blocked and nothing is enabled
 // (deadlock), are reported as unobserved panics of the harness.
 
@@ -101,14 +103,39 @@ func (s *scheduler) enabled(t *gthread) bool {
 	return t.blocked == nil || t.handed || t.blocked()
 }
 
+// candidates: the enabled goroutines other than `except`, in round-robin order starting after it.
 func (s *scheduler) candidates(except *gthread) []*gthread {
 	var out []*gthread
-	for _, t := range s.threads {
+	n := len(s.threads)
+	start := 0
+	if except != nil {
+		start = except.id + 1
+	}
+	for k := 0; k < n; k++ {
+		t := s.threads[(start+k)%n]
 		if t != except && s.enabled(t) {
 			out = append(out, t)
 		}
 	}
 	return out
+}
+
+// pick chooses among the candidates under the delay bound: candidate 0 is what the deterministic round-robin,
+// non-preemptive scheduler would run next and is free; choosing candidate k costs k delays.
+func (s *scheduler) pick(fr *frame, n int) int {
+	left := s.maxPre - s.pre
+	if left < 0 {
+		left = 0
+	}
+	if n-1 < left {
+		left = n - 1
+	}
+	if left == 0 {
+		return 0
+	}
+	k := s.in.choose(fr, left+1, "schedule")
+	s.pre += k
+	return k
 }
 
 // park hands the baton to `to` and waits until this goroutine is scheduled again.
@@ -140,11 +167,11 @@ func (s *scheduler) point(fr *frame) {
 	if len(c) == 0 {
 		return
 	}
-	k := s.in.choose(fr, 1+len(c), "schedule")
+	// option 0: continue (free); option k: run the k-th other goroutine instead (k delays)
+	k := s.pick(fr, 1+len(c))
 	if k == 0 {
 		return
 	}
-	s.pre++
 	s.park(t, c[k-1])
 }
 
@@ -163,11 +190,7 @@ func (s *scheduler) yieldBlocked(fr *frame, t *gthread) {
 	if len(c) == 0 {
 		s.deadlock(fr)
 	}
-	k := 0
-	if len(c) > 1 {
-		k = s.in.choose(fr, len(c), "schedule")
-	}
-	s.park(t, c[k])
+	s.park(t, c[s.pick(fr, len(c))])
 }
 
 func (s *scheduler) deadlock(fr *frame) {
@@ -182,8 +205,8 @@ func (s *scheduler) deadlock(fr *frame) {
 
 // spawn starts a target goroutine.
 func (s *scheduler) spawn(fr *frame, fn value, args []value, pos token.Pos) {
-	if len(s.threads) >= 8 {
-		panic(pathEnd{"goroutine bound (8) exhausted", true})
+	if len(s.threads) >= 16 {
+		panic(pathEnd{"goroutine bound (16) exhausted", true})
 	}
 	t := &gthread{id: len(s.threads), wake: make(chan struct{}, 1), exited: make(chan struct{}), what: "started"}
 	s.threads = append(s.threads, t)
@@ -243,7 +266,7 @@ func (s *scheduler) finish(t *gthread) {
 					s.abort = r
 				}
 			}()
-			k = s.in.choose(nil, len(c), "schedule")
+			k = s.pick(nil, len(c))
 		}()
 		if s.abort != nil {
 			s.cur = main
@@ -279,12 +302,8 @@ func (s *scheduler) quiesce(fr *frame) {
 		if len(c) == 0 {
 			break
 		}
-		k := 0
-		if len(c) > 1 {
-			k = s.in.choose(fr, len(c), "schedule")
-		}
 		t.what = "quiesce"
-		s.park(t, c[k])
+		s.park(t, c[s.pick(fr, len(c))])
 	}
 	t.quiesce = false
 }
@@ -625,6 +644,43 @@ func registerConcurrency(e map[string]externalFn) {
 		s.wait(fr, func() bool { return s.wgs[p] == 0 }, "WaitGroup.Wait")
 		return nil
 	})
+	// go-ethereum rpc.NewID: random subscription identifiers -> distinct fresh identifiers
+	e["github.com/ethereum/go-ethereum/rpc.NewID"] = func(fr *frame, args []value) value {
+		n, _ := fr.i.extState["rpc.NewID"].(int)
+		fr.i.extState["rpc.NewID"] = n + 1
+		return fmt.Sprintf("0x%032x", n+1)
+	}
+	// the CometBFT websocket client is the environment: subscribing / unsubscribing succeeds
+	e["(*github.com/cometbft/cometbft/rpc/jsonrpc/client.WSClient).Subscribe"] = func(fr *frame, args []value) value { return iface{} }
+	e["(*github.com/cometbft/cometbft/rpc/jsonrpc/client.WSClient).Unsubscribe"] = func(fr *frame, args []value) value { return iface{} }
+	// timers: time.Sleep is a scheduling point; a timer's channel never fires (time-outs are not taken)
+	neverFires := func(fr *frame) *schan {
+		return &schan{cap: 1, elem: fr.i.prog.ImportedPackage("time").Type("Time").Type()}
+	}
+	newTimer := func(typeName string) externalFn {
+		return func(fr *frame, args []value) value {
+			fr.i.needSched("time." + typeName)
+			st := zero(fr.i.prog.ImportedPackage("time").Type(typeName).Type()).(structure)
+			st[0] = neverFires(fr)
+			var v value = st
+			return &v
+		}
+	}
+	e["time.NewTimer"] = newTimer("Timer")
+	e["time.NewTicker"] = newTimer("Ticker")
+	e["time.After"] = func(fr *frame, args []value) value {
+		fr.i.needSched("time.After")
+		return neverFires(fr)
+	}
+	e["(*time.Timer).Stop"] = func(fr *frame, args []value) value { return true }
+	e["(*time.Timer).Reset"] = func(fr *frame, args []value) value { return true }
+	e["(*time.Ticker).Stop"] = func(fr *frame, args []value) value { return nil }
+	e["time.Sleep"] = func(fr *frame, args []value) value {
+		if s := fr.i.sched; s != nil {
+			s.point(fr)
+		}
+		return nil
+	}
 	e["runtime.Gosched"] = func(fr *frame, args []value) value {
 		if s := fr.i.sched; s != nil {
 			s.point(fr)
